@@ -7,10 +7,11 @@
    node that carries no route has at least two children": a '/'-free hostname
    node in host mode may have the single child that starts with '/'.
    Seen this way the method root is the hostname node of the empty hostname.
-   Definitions + boolean checker here; uniqueness in Canon2.v. *)
+   Definitions, boolean checker, uniqueness (canonical_unique), lifting to the
+   root slice / txn, examples.  The bridge from p-tree's WF invariant is Canon2.v. *)
 From FoxBase Require Import Bytes.
 From FoxRoute Require Import Node Tree.
-From Coq Require Import Sorting.Sorted.
+From Coq Require Import Sorting.Sorted Sorting.Permutation Lia.
 Open Scope char_scope.
 
 (* ---------- the route set of a tree ---------- *)
@@ -38,8 +39,8 @@ Definition key_ok (host : bool) (k : bytes) : bool :=
   match k with [] => false | c :: t => negb host || Ascii.eqb c "/" || negb (has_slash t) end.
 Definition next_host (host : bool) (k : bytes) : bool := host && negb (has_slash k).
 
-Definition fb (n : node) : nat := match nkey n with c :: _ => nat_of_ascii c | [] => 0 end.
-Definition fb_lt (a b : node) : Prop := fb a < fb b.
+Definition fbyte (n : node) : nat := match nkey n with c :: _ => nat_of_ascii c | [] => 0 end.
+Definition fb_lt (a b : node) : Prop := fbyte a < fbyte b.
 
 Definition branch_ok (host' : bool) (r : option route) (ch : list node) : bool :=
   match r with
@@ -71,7 +72,7 @@ Definition Canonical (root : node) : Prop :=
 Fixpoint ssortedb (l : list node) : bool :=
   match l with
   | [] => true
-  | x :: r => forallb (fun y => Nat.ltb (fb x) (fb y)) r && ssortedb r
+  | x :: r => forallb (fun y => Nat.ltb (fbyte x) (fbyte y)) r && ssortedb r
   end.
 
 Fixpoint canonb (host : bool) (n : node) : bool :=
@@ -118,3 +119,571 @@ Definition hist_step (t : txn) (o : hist_op) : txn :=
   | HDel m p => match remove t m p with DOk t' _ => t' | DNotFound => t end
   end.
 Definition run_hist (l : list hist_op) : txn := fold_left hist_step l empty_txn.
+
+(* ====================================================================== *)
+(* the checker decides Canonical; a canonical tree is determined by its route set *)
+
+(* ---------- induction on nodes ---------- *)
+Lemma cnode_ind (P : node -> Prop) :
+  (forall k r ch, Forall P ch -> P (Node k r ch)) -> forall n, P n.
+Proof.
+  intros H. fix IH 1. intros [k r ch]. apply H.
+  induction ch as [|c ch IHch]; constructor; [apply IH | exact IHch].
+Qed.
+
+Lemma CanonN_inv h k r ch :
+  CanonN h (Node k r ch) ->
+  key_ok h k = true /\ StronglySorted fb_lt ch /\
+  Forall (CanonN (next_host h k)) ch /\ branch_ok (next_host h k) r ch = true.
+Proof. intros Hc; inversion Hc; subst; auto. Qed.
+
+(* ---------- the checker is exact ---------- *)
+Lemma ssortedb_spec l : ssortedb l = true <-> StronglySorted fb_lt l.
+Proof.
+  induction l as [|x r IH]; simpl.
+  - split; auto. constructor.
+  - rewrite andb_true_iff, forallb_forall, IH. split.
+    + intros [Ha Hs]. constructor; auto. apply Forall_forall. intros y Hy.
+      apply Nat.ltb_lt, Ha, Hy.
+    + intros Hs. apply StronglySorted_inv in Hs as [Hs Ha]. split; auto.
+      intros y Hy. apply Nat.ltb_lt. rewrite Forall_forall in Ha. exact (Ha y Hy).
+Qed.
+
+Lemma canonb_spec n : forall h, canonb h n = true <-> CanonN h n.
+Proof.
+  induction n as [k r ch IH] using cnode_ind. intros h. cbn [canonb].
+  rewrite Forall_forall in IH.
+  rewrite !andb_true_iff, ssortedb_spec, forallb_forall. split.
+  - intros [[[Hk Hs] Hc] Hb]. constructor; auto. apply Forall_forall. intros x Hx.
+    apply IH; auto.
+  - intros Hc. apply CanonN_inv in Hc as (Hk & Hs & Hc & Hb). repeat split; auto.
+    intros x Hx. apply IH; auto. rewrite Forall_forall in Hc. auto.
+Qed.
+
+Lemma pats_okb_spec root : pats_okb root = true <-> pats_ok root.
+Proof.
+  unfold pats_okb, pats_ok. rewrite forallb_forall. split.
+  - intros Hf p r Hin. apply bytes_eqb_eq. exact (Hf (p, r) Hin).
+  - intros Hp [p r] Hin. apply bytes_eqb_eq. simpl. auto.
+Qed.
+
+Lemma forallb_canonb h l : forallb (canonb h) l = true <-> Forall (CanonN h) l.
+Proof.
+  rewrite forallb_forall, Forall_forall.
+  split; intros Hf x Hx; apply canonb_spec; auto.
+Qed.
+
+Theorem canonicalb_spec root : canonicalb root = true <-> Canonical root.
+Proof.
+  unfold canonicalb, Canonical.
+  rewrite !andb_true_iff, ssortedb_spec, forallb_canonb, pats_okb_spec. tauto.
+Qed.
+
+Lemma list_eqb_bytes a b : list_eqb bytes_eqb a b = true <-> a = b.
+Proof.
+  revert b; induction a as [|x a IH]; intros [|y b]; simpl; try (split; congruence).
+  rewrite andb_true_iff, bytes_eqb_eq, IH. split; [intros [-> ->]; auto | intros E; injection E; auto].
+Qed.
+
+Lemma nodupb_spec l : nodupb l = true <-> NoDup l.
+Proof.
+  unfold nodupb. induction l as [|x r IH].
+  - split; auto. constructor.
+  - rewrite andb_true_iff, negb_true_iff, IH. split.
+    + intros [Hn Hd]. constructor; auto. intros Hin.
+      assert (existsb (bytes_eqb x) r = true) as E
+        by (apply existsb_exists; exists x; split; auto; apply bytes_eqb_refl).
+      congruence.
+    + intros Hd. inversion Hd as [|? ? Hn Hd']; subst. split; auto.
+      destruct (existsb (bytes_eqb x) r) eqn:E; auto.
+      apply existsb_exists in E as (y & Hy & Ey). apply bytes_eqb_eq in Ey. subst. contradiction.
+Qed.
+
+Theorem canon_rootsb_spec rs : canon_rootsb rs = true <-> CanonRoots rs.
+Proof.
+  unfold canon_rootsb, CanonRoots.
+  rewrite !andb_true_iff, list_eqb_bytes, nodupb_spec, !forallb_forall, !Forall_forall.
+  split.
+  - intros [[[H1 H2] H3] H4]. split; [exact H1|]. split; [exact H2|]. split.
+    + intros x Hx. apply H3 in Hx. apply andb_true_iff in Hx as [Hr Hn]. split; [exact Hr|].
+      intros E. rewrite E in Hn. discriminate.
+    + intros x Hx. apply canonicalb_spec; auto.
+  - intros (H1 & H2 & H3 & H4). split; [split; [split; [exact H1 | exact H2] |] |].
+    + intros x Hx. destruct (H3 x Hx) as [Hr Hn]. rewrite Hr. simpl.
+      destruct (nchildren x); [congruence | reflexivity].
+    + intros x Hx. apply canonicalb_spec; auto.
+Qed.
+
+(* ---------- facts about sufs ---------- *)
+Definition seteq {X} (A B : list X) : Prop := forall x, In x A <-> In x B.
+
+Lemma seteq_sym {X} (A B : list X) : seteq A B -> seteq B A.
+Proof. intros E x. symmetry. apply E. Qed.
+
+Lemma Permutation_seteq {X} (A B : list X) : Permutation A B -> seteq A B.
+Proof. intros Hp x. split; apply Permutation_in; auto. symmetry; auto. Qed.
+
+Definition pfb (p : bytes * route) : nat :=
+  match fst p with c :: _ => nat_of_ascii c | [] => 0 end.
+
+Lemma key_ok_nonempty h k : key_ok h k = true -> exists c t, k = c :: t.
+Proof. destruct k as [|c t]; [discriminate | eauto]. Qed.
+
+Lemma sufs_in k r ch p :
+  In p (sufs (Node k r ch)) <-> exists q, p = prepend k q /\ In q (own r ++ flat_map sufs ch).
+Proof.
+  cbn [sufs]. rewrite in_map_iff. split; intros [q [H1 H2]]; exists q; split; auto.
+Qed.
+
+Lemma sufs_head h z p :
+  CanonN h z -> In p (sufs z) -> exists c t u, nkey z = c :: t /\ fst p = c :: u.
+Proof.
+  intros Hc Hp. destruct z as [k r ch]. apply CanonN_inv in Hc as (Hk & _).
+  apply sufs_in in Hp as (q & -> & _).
+  destruct (key_ok_nonempty _ _ Hk) as (c & t & ->).
+  exists c, t, (t ++ fst q). split; reflexivity.
+Qed.
+
+Lemma sufs_pfb h z p : CanonN h z -> In p (sufs z) -> pfb p = fbyte z /\ fst p <> [].
+Proof.
+  intros Hc Hp. destruct (sufs_head _ _ _ Hc Hp) as (c & t & u & Hk & Hf).
+  unfold pfb, fbyte. rewrite Hk, Hf. split; [reflexivity | discriminate].
+Qed.
+
+Lemma sufs_inhab : forall z h, CanonN h z -> exists p, In p (sufs z).
+Proof.
+  induction z as [k r ch IH] using cnode_ind. intros h Hc.
+  apply CanonN_inv in Hc as (Hk & Hs & Hch & Hb).
+  destruct r as [x|].
+  - exists (prepend k ([], x)). apply sufs_in. exists ([], x). split; auto. simpl. auto.
+  - destruct ch as [|g ch'].
+    + simpl in Hb. discriminate.
+    + inversion IH as [|? ? IHg _]; subst. inversion Hch as [|? ? Hg _]; subst.
+      destruct (IHg _ Hg) as [q Hq]. exists (prepend k q). apply sufs_in. exists q.
+      split; auto. cbn [own app flat_map]. apply in_or_app. left. exact Hq.
+Qed.
+
+Lemma flat_fst h l p : Forall (CanonN h) l -> In p (flat_map sufs l) -> fst p <> [].
+Proof.
+  intros Hc Hp. apply in_flat_map in Hp as (z & Hz & Hpz). rewrite Forall_forall in Hc.
+  apply (sufs_pfb _ _ _ (Hc z Hz) Hpz).
+Qed.
+
+Lemma flat_gt h x l p :
+  Forall (CanonN h) l -> Forall (fb_lt x) l -> In p (flat_map sufs l) -> fbyte x < pfb p.
+Proof.
+  intros Hc Hl Hp. apply in_flat_map in Hp as (z & Hz & Hpz).
+  rewrite Forall_forall in Hc, Hl.
+  destruct (sufs_pfb _ _ _ (Hc z Hz) Hpz) as [E _]. rewrite E. apply Hl, Hz.
+Qed.
+
+(* ---------- children are determined ---------- *)
+Lemma children_eq h : forall ca cb,
+  StronglySorted fb_lt ca -> StronglySorted fb_lt cb ->
+  Forall (CanonN h) ca -> Forall (CanonN h) cb ->
+  Forall (fun x => forall y, CanonN h y -> seteq (sufs x) (sufs y) -> x = y) ca ->
+  seteq (flat_map sufs ca) (flat_map sufs cb) -> ca = cb.
+Proof.
+  induction ca as [|x ca' IHl]; intros [|y cb'] Hsa Hsb Hca Hcb IH E.
+  - reflexivity.
+  - exfalso. inversion Hcb as [|? ? Hy _]; subst. destruct (sufs_inhab _ _ Hy) as [p Hp].
+    apply (proj2 (E p)). cbn [flat_map]. apply in_or_app; auto.
+  - exfalso. inversion Hca as [|? ? Hx _]; subst. destruct (sufs_inhab _ _ Hx) as [p Hp].
+    apply (proj1 (E p)). cbn [flat_map]. apply in_or_app; auto.
+  - apply StronglySorted_inv in Hsa as [Hsa Hla]. apply StronglySorted_inv in Hsb as [Hsb Hlb].
+    inversion Hca as [|? ? Hx Hca']; subst. inversion Hcb as [|? ? Hy Hcb']; subst.
+    inversion IH as [|? ? IHx IH']; subst.
+    cbn [flat_map] in E.
+    assert (Ex : forall p, In p (sufs x) \/ In p (flat_map sufs ca') <->
+                           In p (sufs y) \/ In p (flat_map sufs cb')).
+    { intros p. rewrite <- !in_app_iff. apply E. }
+    assert (Hfb : fbyte x = fbyte y).
+    { destruct (sufs_inhab _ _ Hx) as [px Hpx]. destruct (sufs_inhab _ _ Hy) as [py Hpy].
+      destruct (sufs_pfb _ _ _ Hx Hpx) as [E1 _]. destruct (sufs_pfb _ _ _ Hy Hpy) as [E2 _].
+      destruct (proj1 (Ex px) (or_introl Hpx)) as [H1|H1];
+      destruct (proj2 (Ex py) (or_introl Hpy)) as [H2|H2].
+      - destruct (sufs_pfb _ _ _ Hy H1). lia.
+      - destruct (sufs_pfb _ _ _ Hy H1). lia.
+      - destruct (sufs_pfb _ _ _ Hx H2). lia.
+      - pose proof (flat_gt _ _ _ _ Hcb' Hlb H1). pose proof (flat_gt _ _ _ _ Hca' Hla H2). lia. }
+    assert (Exy : seteq (sufs x) (sufs y)).
+    { intros p. split; intros Hp.
+      - destruct (proj1 (Ex p) (or_introl Hp)) as [H1|H1]; auto.
+        destruct (sufs_pfb _ _ _ Hx Hp). pose proof (flat_gt _ _ _ _ Hcb' Hlb H1). lia.
+      - destruct (proj2 (Ex p) (or_introl Hp)) as [H1|H1]; auto.
+        destruct (sufs_pfb _ _ _ Hy Hp). pose proof (flat_gt _ _ _ _ Hca' Hla H1). lia. }
+    assert (Et : seteq (flat_map sufs ca') (flat_map sufs cb')).
+    { intros p. split; intros Hp.
+      - destruct (proj1 (Ex p) (or_intror Hp)) as [H1|H1]; auto.
+        destruct (sufs_pfb _ _ _ Hy H1). pose proof (flat_gt _ _ _ _ Hca' Hla Hp). lia.
+      - destruct (proj2 (Ex p) (or_intror Hp)) as [H1|H1]; auto.
+        destruct (sufs_pfb _ _ _ Hx H1). pose proof (flat_gt _ _ _ _ Hcb' Hlb Hp). lia. }
+    rewrite (IHx y Hy Exy). f_equal. apply IHl; auto.
+Qed.
+
+Lemma body_incl_ch h ra ca rb cb :
+  Forall (CanonN h) ca ->
+  incl (own ra ++ flat_map sufs ca) (own rb ++ flat_map sufs cb) ->
+  incl (flat_map sufs ca) (flat_map sufs cb).
+Proof.
+  intros Hca Hi p Hp. pose proof (flat_fst _ _ _ Hca Hp) as Hne.
+  assert (Hin : In p (own rb ++ flat_map sufs cb)) by (apply Hi, in_or_app; auto).
+  apply in_app_or in Hin as [Hin|Hin]; auto.
+  destruct rb as [y|]; simpl in Hin; [|contradiction].
+  destruct Hin as [<-|[]]. simpl in Hne. congruence.
+Qed.
+
+Lemma body_incl_own h ra ca rb cb x :
+  Forall (CanonN h) cb ->
+  incl (own ra ++ flat_map sufs ca) (own rb ++ flat_map sufs cb) ->
+  ra = Some x -> rb = Some x.
+Proof.
+  intros Hcb Hi ->.
+  assert (Hin : In ([], x) (own rb ++ flat_map sufs cb)) by (apply Hi; simpl; auto).
+  apply in_app_or in Hin as [Hin|Hin].
+  - destruct rb as [y|]; simpl in Hin; [|contradiction]. destruct Hin as [E|[]]. congruence.
+  - apply (flat_fst _ _ _ Hcb) in Hin. simpl in Hin. congruence.
+Qed.
+
+Lemma body_unique h ra ca rb cb :
+  StronglySorted fb_lt ca -> StronglySorted fb_lt cb ->
+  Forall (CanonN h) ca -> Forall (CanonN h) cb ->
+  Forall (fun x => forall y, CanonN h y -> seteq (sufs x) (sufs y) -> x = y) ca ->
+  seteq (own ra ++ flat_map sufs ca) (own rb ++ flat_map sufs cb) ->
+  ra = rb /\ ca = cb.
+Proof.
+  intros Hsa Hsb Hca Hcb IH E.
+  assert (Iab : incl (own ra ++ flat_map sufs ca) (own rb ++ flat_map sufs cb))
+    by (intros p; apply E).
+  assert (Iba : incl (own rb ++ flat_map sufs cb) (own ra ++ flat_map sufs ca))
+    by (intros p; apply E).
+  split.
+  - destruct ra as [x|].
+    + symmetry. exact (body_incl_own h (Some x) ca rb cb x Hcb Iab eq_refl).
+    + destruct rb as [y|]; auto. exact (body_incl_own h (Some y) cb None ca y Hca Iba eq_refl).
+  - apply (children_eq h); auto. intros p. split.
+    + apply (body_incl_ch _ _ _ _ _ Hca Iab).
+    + apply (body_incl_ch _ _ _ _ _ Hcb Iba).
+Qed.
+
+(* ---------- the key is determined ---------- *)
+Lemma has_slash_app a b : has_slash (a ++ b) = has_slash a || has_slash b.
+Proof. apply existsb_app. Qed.
+
+Lemma prefix_cmp {X} (a b u v : list X) :
+  a ++ u = b ++ v -> exists w, a = b ++ w \/ b = a ++ w.
+Proof.
+  revert b; induction a as [|x a IH]; intros b E.
+  - exists b. right. reflexivity.
+  - destruct b as [|y b].
+    + exists (x :: a). left. reflexivity.
+    + simpl in E. injection E as -> E. destruct (IH _ E) as [w [-> | ->]]; exists w; auto.
+Qed.
+
+Lemma key_longer_absurd h ka ra ca kb rb cb w :
+  CanonN h (Node ka ra ca) -> CanonN h (Node kb rb cb) ->
+  incl (sufs (Node kb rb cb)) (sufs (Node ka ra ca)) ->
+  ka = kb ++ w -> w = [].
+Proof.
+  intros Ha Hb Hincl ->. destruct w as [|c w']; auto. exfalso.
+  apply CanonN_inv in Ha as (Hka & _). apply CanonN_inv in Hb as (Hkb & Hsb & Hcb & Hbb).
+  assert (Hq : forall q, In q (own rb ++ flat_map sufs cb) -> exists u, fst q = c :: u).
+  { intros q Hq.
+    assert (Hin : In (prepend kb q) (sufs (Node kb rb cb))) by (apply sufs_in; eauto).
+    apply Hincl in Hin. apply sufs_in in Hin as (q' & E & _).
+    unfold prepend in E. injection E as E1 _. rewrite <- app_assoc in E1.
+    apply app_inv_head in E1. exists (w' ++ fst q'). rewrite E1. reflexivity. }
+  destruct rb as [x|].
+  { destruct (Hq ([], x)) as [u Hu]; [simpl; auto | discriminate]. }
+  cbn [own app] in Hq.
+  assert (Hfb : forall g, In g cb -> exists t, nkey g = c :: t).
+  { intros g Hg. rewrite Forall_forall in Hcb.
+    destruct (sufs_inhab _ _ (Hcb g Hg)) as [p Hp].
+    destruct (sufs_head _ _ _ (Hcb g Hg) Hp) as (c1 & t & u & Hk & Hf).
+    destruct (Hq p) as [u' Hu']; [apply in_flat_map; eauto|].
+    rewrite Hf in Hu'. injection Hu' as -> _. eauto. }
+  destruct cb as [|g1 [|g2 cb']].
+  - discriminate Hbb.
+  - cbn [branch_ok] in Hbb. apply andb_true_iff in Hbb as [Hh Hst].
+    destruct (Hfb g1) as [t Ht]; [simpl; auto|]. rewrite Ht in Hst. simpl in Hst.
+    apply Ascii.eqb_eq in Hst. subst c.
+    unfold next_host in Hh. apply andb_true_iff in Hh as [-> Hns]. apply negb_true_iff in Hns.
+    destruct kb as [|c0 kb']; [discriminate Hkb|].
+    cbn [has_slash existsb] in Hns. apply orb_false_iff in Hns as [Hc0 Hns'].
+    cbn [app key_ok] in Hka. fold (has_slash kb') in Hns'.
+    rewrite has_slash_app, Hc0, Hns' in Hka. cbn in Hka. discriminate.
+  - apply StronglySorted_inv in Hsb as [_ Hlt]. inversion Hlt as [|? ? H12 _]; subst.
+    unfold fb_lt, fbyte in H12.
+    destruct (Hfb g1) as [t1 Ht1]; [simpl; auto|]. destruct (Hfb g2) as [t2 Ht2]; [simpl; auto|].
+    rewrite Ht1, Ht2 in H12. lia.
+Qed.
+
+Lemma body_incl k ra ca rb cb :
+  incl (sufs (Node k ra ca)) (sufs (Node k rb cb)) ->
+  incl (own ra ++ flat_map sufs ca) (own rb ++ flat_map sufs cb).
+Proof.
+  intros Hi q Hq.
+  assert (Hin : In (prepend k q) (sufs (Node k ra ca))) by (apply sufs_in; eauto).
+  apply Hi in Hin. apply sufs_in in Hin as (q' & E & Hq').
+  assert (q = q') as ->; auto.
+  destruct q as [p1 r1], q' as [p2 r2]. unfold prepend in E. simpl in E.
+  injection E as E1 E2. apply app_inv_head in E1. congruence.
+Qed.
+
+(* ---------- uniqueness ---------- *)
+Theorem canonN_unique : forall a h b,
+  CanonN h a -> CanonN h b -> seteq (sufs a) (sufs b) -> a = b.
+Proof.
+  induction a as [ka ra ca IH] using cnode_ind. intros h [kb rb cb] Ha Hb E.
+  assert (Iab : incl (sufs (Node ka ra ca)) (sufs (Node kb rb cb))) by (intros p; apply E).
+  assert (Iba : incl (sufs (Node kb rb cb)) (sufs (Node ka ra ca))) by (intros p; apply E).
+  assert (Hk : ka = kb).
+  { destruct (sufs_inhab _ _ Ha) as [p Hp]. pose proof (Iab p Hp) as Hp'.
+    apply sufs_in in Hp as (q & Ep & _). apply sufs_in in Hp' as (q' & Ep' & _).
+    assert (E2 : ka ++ fst q = kb ++ fst q')
+      by (rewrite Ep in Ep'; unfold prepend in Ep'; congruence).
+    destruct (prefix_cmp _ _ _ _ E2) as [w [Hw|Hw]].
+    - pose proof (key_longer_absurd _ _ _ _ _ _ _ _ Ha Hb Iba Hw) as ->.
+      rewrite app_nil_r in Hw. exact Hw.
+    - pose proof (key_longer_absurd _ _ _ _ _ _ _ _ Hb Ha Iab Hw) as ->.
+      rewrite app_nil_r in Hw. auto. }
+  subst kb.
+  apply CanonN_inv in Ha as (_ & Hsa & Hca & _). apply CanonN_inv in Hb as (_ & Hsb & Hcb & _).
+  destruct (body_unique (next_host h ka) ra ca rb cb) as [-> ->]; auto.
+  - rewrite Forall_forall in IH |- *. intros x Hx y Hy Exy.
+    rewrite Forall_forall in Hca. eapply IH; eauto.
+  - intros p. split; [apply (body_incl ka ra ca rb cb Iab) | apply (body_incl ka rb cb ra ca Iba)].
+Qed.
+
+Theorem canonical_unique a b :
+  Canonical a -> Canonical b -> seteq (routes_of a) (routes_of b) -> nkey a = nkey b -> a = b.
+Proof.
+  destruct a as [ka ra ca], b as [kb rb cb]. unfold Canonical, routes_of. cbn [nkey nroute nchildren].
+  intros (Hsa & Hca & _) (Hsb & Hcb & _) E ->.
+  destruct (body_unique true ra ca rb cb) as [-> ->]; auto.
+  rewrite Forall_forall in Hca |- *. intros x Hx y Hy Exy. eapply canonN_unique; eauto.
+Qed.
+
+Corollary canonical_unique_perm a b :
+  Canonical a -> Canonical b -> Permutation (routes_of a) (routes_of b) -> nkey a = nkey b -> a = b.
+Proof. intros Ha Hb Hp. apply canonical_unique; auto. apply Permutation_seteq; auto. Qed.
+
+(* patterns are part of the routes: it is enough to compare the sets of route values *)
+Definition routes (root : node) : list route := map snd (routes_of root).
+
+Lemma routes_seteq a b :
+  pats_ok a -> pats_ok b -> seteq (routes a) (routes b) -> seteq (routes_of a) (routes_of b).
+Proof.
+  enough (Hi : forall a b, pats_ok a -> pats_ok b -> incl (routes a) (routes b) ->
+                           incl (routes_of a) (routes_of b)).
+  { intros Ha Hb E p. split; apply Hi; auto; intros r; apply E. }
+  clear a b. intros a b Ha Hb Hi [p r] Hin.
+  assert (Hr : In r (routes b)) by (apply Hi; unfold routes; apply in_map_iff; exists (p, r); auto).
+  unfold routes in Hr. apply in_map_iff in Hr as ([p' r'] & Er & Hin'). simpl in Er. subst r'.
+  rewrite <- (Ha _ _ Hin). rewrite <- (Hb _ _ Hin') in Hin'. exact Hin'.
+Qed.
+
+Theorem canonical_unique_routes a b :
+  Canonical a -> Canonical b -> seteq (routes a) (routes b) -> nkey a = nkey b -> a = b.
+Proof.
+  intros Ha Hb E. apply canonical_unique; auto.
+  apply routes_seteq; auto; [apply Ha | apply Hb].
+Qed.
+
+(* ---------- roots / txn ---------- *)
+Lemma in_txn_routes rs m pr :
+  In (m, pr) (txn_routes rs) <-> exists root, In root rs /\ nkey root = m /\ In pr (routes_of root).
+Proof.
+  unfold txn_routes. rewrite in_flat_map. split.
+  - intros (root & Hr & Hin). apply in_map_iff in Hin as (pr' & E & Hin). injection E as <- <-. eauto.
+  - intros (root & Hr & <- & Hin). exists root. split; auto. apply in_map_iff. eauto.
+Qed.
+
+Lemma nodup_map_inj {X Y} (f : X -> Y) l x y :
+  NoDup (map f l) -> In x l -> In y l -> f x = f y -> x = y.
+Proof.
+  induction l as [|z l IH]; simpl; intros Hd Hx Hy E; [contradiction|].
+  inversion Hd as [|? ? Hn Hd']; subst.
+  destruct Hx as [->|Hx], Hy as [->|Hy]; auto.
+  - exfalso. apply Hn. rewrite E. apply in_map; auto.
+  - exfalso. apply Hn. rewrite <- E. apply in_map; auto.
+Qed.
+
+Lemma common_verbs_not_removable m : In m common_verbs -> is_removable m = false.
+Proof.
+  intros Hin. unfold is_removable. apply negb_false_iff. apply existsb_exists.
+  exists m. split; auto. apply bytes_eqb_refl.
+Qed.
+
+Lemma nodup_app {X} (a b : list X) :
+  NoDup a -> NoDup b -> (forall x, In x a -> ~ In x b) -> NoDup (a ++ b).
+Proof.
+  induction a as [|x a IH]; simpl; intros Ha Hb Hd; auto.
+  inversion Ha as [|? ? Hn Ha']; subst. constructor.
+  - intros Hin. apply in_app_or in Hin as [Hin|Hin]; auto. apply (Hd x); auto.
+  - apply IH; auto.
+Qed.
+
+Lemma common_verbs_nodup : NoDup common_verbs.
+Proof.
+  apply nodupb_spec. vm_compute. reflexivity.
+Qed.
+
+Lemma roots_keys_nodup rs : CanonRoots rs -> NoDup (map nkey rs).
+Proof.
+  intros (H4 & Hd & Hr & _). rewrite <- (firstn_skipn 4 rs), map_app, H4.
+  assert (Hdis : forall m, In m common_verbs -> ~ In m (map nkey (skipn 4 rs))).
+  { intros m Hm Hin. apply in_map_iff in Hin as (x & <- & Hx). rewrite Forall_forall in Hr.
+    destruct (Hr x Hx) as [Hrem _]. rewrite (common_verbs_not_removable _ Hm) in Hrem. discriminate. }
+  apply nodup_app; auto. apply common_verbs_nodup.
+Qed.
+
+Lemma roots_same_key ra rb x y :
+  CanonRoots ra -> CanonRoots rb -> seteq (txn_routes ra) (txn_routes rb) ->
+  In x ra -> In y rb -> nkey x = nkey y -> x = y.
+Proof.
+  intros Ha Hb E Hx Hy Ek.
+  assert (Hi : forall ra rb x y, CanonRoots rb -> incl (txn_routes ra) (txn_routes rb) ->
+             In x ra -> In y rb -> nkey x = nkey y -> incl (routes_of x) (routes_of y)).
+  { clear. intros ra rb x y Hb Hi Hx Hy Ek pr Hpr.
+    assert (Hin : In (nkey x, pr) (txn_routes ra)) by (apply in_txn_routes; eauto).
+    apply Hi, in_txn_routes in Hin as (y' & Hy' & Ek' & Hpr').
+    rewrite (nodup_map_inj nkey rb y y' (roots_keys_nodup _ Hb) Hy Hy'); auto. congruence. }
+  destruct Ha as (Ha1 & Ha2 & Ha3 & Ha4), Hb as (Hb1 & Hb2 & Hb3 & Hb4).
+  apply canonical_unique; auto.
+  - rewrite Forall_forall in Ha4; auto.
+  - rewrite Forall_forall in Hb4; auto.
+  - intros pr. split.
+    + eapply (Hi ra rb); eauto; [repeat split; auto | intros p; apply E].
+    + eapply (Hi rb ra); eauto; [repeat split; auto | intros p; apply E].
+Qed.
+
+Lemma canonical_inhab root :
+  Canonical root -> nchildren root <> [] -> exists pr, In pr (routes_of root).
+Proof.
+  intros (_ & Hc & _) Hne. unfold routes_of. destruct (nchildren root) as [|g ch]; [congruence|].
+  inversion Hc as [|? ? Hg _]; subst. destruct (sufs_inhab _ _ Hg) as [p Hp].
+  exists p. apply in_or_app. right. cbn [flat_map]. apply in_or_app. auto.
+Qed.
+
+Lemma custom_incl ra rb :
+  CanonRoots ra -> CanonRoots rb -> seteq (txn_routes ra) (txn_routes rb) ->
+  incl (skipn 4 ra) (skipn 4 rb).
+Proof.
+  intros Ha Hb E x Hx.
+  assert (Hxa : In x ra) by (rewrite <- (firstn_skipn 4 ra); apply in_or_app; auto).
+  pose proof Ha as (_ & _ & Ha3 & Ha4). rewrite Forall_forall in Ha3, Ha4.
+  destruct (Ha3 x Hx) as [Hrem Hne].
+  destruct (canonical_inhab x (Ha4 x Hxa) Hne) as [pr Hpr].
+  assert (Hin : In (nkey x, pr) (txn_routes ra)) by (apply in_txn_routes; eauto).
+  apply E, in_txn_routes in Hin as (y & Hy & Ek & _).
+  assert (x = y) as -> by (apply (roots_same_key ra rb x y Ha Hb E Hxa Hy); auto).
+  rewrite <- (firstn_skipn 4 rb) in Hy. apply in_app_or in Hy as [Hy|Hy]; auto.
+  exfalso. pose proof Hb as (Hb1 & _).
+  assert (Hm : In (nkey y) common_verbs) by (rewrite <- Hb1; apply in_map; auto).
+  rewrite (common_verbs_not_removable _ Hm) in Hrem. discriminate.
+Qed.
+
+Theorem canon_roots_unique ra rb :
+  CanonRoots ra -> CanonRoots rb -> seteq (txn_routes ra) (txn_routes rb) ->
+  firstn 4 ra = firstn 4 rb /\ Permutation (skipn 4 ra) (skipn 4 rb).
+Proof.
+  intros Ha Hb E. split.
+  - pose proof Ha as (Ha1 & _). pose proof Hb as (Hb1 & _).
+    assert (Hfa : incl (firstn 4 ra) ra)
+      by (intros x Hx; rewrite <- (firstn_skipn 4 ra); apply in_or_app; auto).
+    assert (Hfb : incl (firstn 4 rb) rb)
+      by (intros x Hx; rewrite <- (firstn_skipn 4 rb); apply in_or_app; auto).
+    assert (Hsk : forall x y, In x (firstn 4 ra) -> In y (firstn 4 rb) -> nkey x = nkey y -> x = y)
+      by (intros x y Hx Hy; apply (roots_same_key ra rb x y Ha Hb E); auto).
+    destruct (firstn 4 ra) as [|a0 [|a1 [|a2 [|a3 [|? ?]]]]]; try discriminate Ha1.
+    destruct (firstn 4 rb) as [|b0 [|b1 [|b2 [|b3 [|? ?]]]]]; try discriminate Hb1.
+    simpl in Ha1, Hb1. rewrite <- Hb1 in Ha1. injection Ha1 as E0 E1 E2 E3.
+    rewrite (Hsk a0 b0), (Hsk a1 b1), (Hsk a2 b2), (Hsk a3 b3); simpl; auto 6.
+  - apply NoDup_Permutation.
+    + destruct Ha as (_ & Hd & _). eapply NoDup_map_inv; eauto.
+    + destruct Hb as (_ & Hd & _). eapply NoDup_map_inv; eauto.
+    + intros x. split; apply custom_incl; auto. apply seteq_sym; auto.
+Qed.
+
+Corollary canon_txn_unique (ta tb : txn) :
+  CanonRoots (t_roots ta) -> CanonRoots (t_roots tb) ->
+  seteq (txn_routes (t_roots ta)) (txn_routes (t_roots tb)) ->
+  firstn 4 (t_roots ta) = firstn 4 (t_roots tb) /\
+  Permutation (skipn 4 (t_roots ta)) (skipn 4 (t_roots tb)).
+Proof. apply canon_roots_unique. Qed.
+
+(* ---------- examples (non-vacuity) ---------- *)
+Local Open Scope string_scope.
+Definition G := S2B "GET".
+(* history 1: with an update-free delete/re-insert detour and a host node that is split and re-merged *)
+Definition ex_h1 : list hist_op :=
+  [HIns G (S2B "a.b/x") 1; HIns G (S2B "/foo") 2; HIns G (S2B "a.b.c/") 3; HIns G (S2B "a.bc/x") 9;
+   HIns G (S2B "a.b/") 4; HIns G (S2B "/foobar") 5; HIns G (S2B "a.c/{p}/z") 6;
+   HIns (S2B "FOO") (S2B "/q") 7; HDel G (S2B "a.bc/x"); HIns (S2B "BAR") (S2B "h/") 8;
+   HDel G (S2B "a.b/x"); HIns G (S2B "a.b/x") 1; HIns (S2B "ZAP") (S2B "/") 10; HDel (S2B "ZAP") (S2B "/")].
+(* history 2: the final set inserted in another order *)
+Definition ex_h2 : list hist_op :=
+  [HIns (S2B "BAR") (S2B "h/") 8; HIns G (S2B "/foobar") 5; HIns G (S2B "a.c/{p}/z") 6;
+   HIns G (S2B "a.b/") 4; HIns G (S2B "a.b.c/") 3; HIns (S2B "FOO") (S2B "/q") 7;
+   HIns G (S2B "/foo") 2; HIns G (S2B "a.b/x") 1].
+
+Example ex_h1_canonical : CanonRoots (t_roots (run_hist ex_h1)).
+Proof. apply canon_rootsb_spec. vm_compute. reflexivity. Qed.
+Example ex_h2_canonical : CanonRoots (t_roots (run_hist ex_h2)).
+Proof. apply canon_rootsb_spec. vm_compute. reflexivity. Qed.
+Example ex_same_set :
+  seteq (txn_routes (t_roots (run_hist ex_h1))) (txn_routes (t_roots (run_hist ex_h2))).
+Proof.
+  set (A := txn_routes (t_roots (run_hist ex_h1))). vm_compute in A.
+  set (B := txn_routes (t_roots (run_hist ex_h2))). vm_compute in B.
+  intros x; split; intros Hin; simpl in Hin;
+    repeat (destruct Hin as [<-|Hin]; [simpl; auto 12|]); destruct Hin.
+Qed.
+(* the theorem applies: same four fixed roots, custom roots up to order ... *)
+Example ex_unique :
+  firstn 4 (t_roots (run_hist ex_h1)) = firstn 4 (t_roots (run_hist ex_h2)) /\
+  Permutation (skipn 4 (t_roots (run_hist ex_h1))) (skipn 4 (t_roots (run_hist ex_h2))).
+Proof. exact (canon_roots_unique _ _ ex_h1_canonical ex_h2_canonical ex_same_set). Qed.
+(* ... and the order of the custom roots does depend on the history *)
+Example ex_custom_order :
+  map nkey (skipn 4 (t_roots (run_hist ex_h1))) = [S2B "FOO"; S2B "BAR"] /\
+  map nkey (skipn 4 (t_roots (run_hist ex_h2))) = [S2B "BAR"; S2B "FOO"].
+Proof. split; vm_compute; reflexivity. Qed.
+(* the GET tree is non-trivial: 7 routes, host nodes with a single '/' child *)
+Example ex_get_tree :
+  nth 0 (t_roots (run_hist ex_h1)) (empty_root []) =
+  Node G None
+    [Node (S2B "/foo") (Some {| rpat := S2B "/foo"; rid := 2 |})
+       [Node (S2B "bar") (Some {| rpat := S2B "/foobar"; rid := 5 |}) []];
+     Node (S2B "a.") None
+       [Node (S2B "b") None
+          [Node (S2B ".c") None [Node (S2B "/") (Some {| rpat := S2B "a.b.c/"; rid := 3 |}) []];
+           Node (S2B "/") (Some {| rpat := S2B "a.b/"; rid := 4 |})
+             [Node (S2B "x") (Some {| rpat := S2B "a.b/x"; rid := 1 |}) []]];
+        Node (S2B "c") None
+          [Node (S2B "/{p}/z") (Some {| rpat := S2B "a.c/{p}/z"; rid := 6 |}) []]]].
+Proof. vm_compute. reflexivity. Qed.
+(* the checker rejects the same route set stored without the host/path boundary,
+   an uncompressed chain, and unsorted children *)
+Example ex_reject_merged :
+  canonicalb (Node G None [Node (S2B "a.b/x") (Some {| rpat := S2B "a.b/x"; rid := 1 |}) []]) = false.
+Proof. vm_compute. reflexivity. Qed.
+Example ex_reject_chain :
+  canonicalb (Node G None [Node (S2B "/fo") None
+                             [Node (S2B "o") (Some {| rpat := S2B "/foo"; rid := 1 |}) []]]) = false.
+Proof. vm_compute. reflexivity. Qed.
+Example ex_reject_unsorted :
+  canonicalb (Node G None [Node (S2B "b") None [Node (S2B "/") (Some {| rpat := S2B "b/"; rid := 1 |}) []];
+                           Node (S2B "/") (Some {| rpat := S2B "/"; rid := 2 |}) []]) = false.
+Proof. vm_compute. reflexivity. Qed.
+Example ex_canon_summary :
+  CanonRoots (t_roots (run_hist ex_h1)) /\ CanonRoots (t_roots (run_hist ex_h2)) /\
+  firstn 4 (t_roots (run_hist ex_h1)) = firstn 4 (t_roots (run_hist ex_h2)) /\
+  Permutation (skipn 4 (t_roots (run_hist ex_h1))) (skipn 4 (t_roots (run_hist ex_h2))) /\
+  map nkey (skipn 4 (t_roots (run_hist ex_h1))) <> map nkey (skipn 4 (t_roots (run_hist ex_h2))).
+Proof.
+  split; [exact ex_h1_canonical|]. split; [exact ex_h2_canonical|].
+  split; [apply ex_unique|]. split; [apply ex_unique|].
+  destruct ex_custom_order as [-> ->]. discriminate.
+Qed.
